@@ -160,6 +160,31 @@ Theorem C18_bucket_bound_prefix_slack_attained :
 Proof. exact prefix_witness_one_ticker. Qed.
 Print Assumptions C18_bucket_bound_prefix_slack_attained.
 
+(* One refill source per limiter: after any sequence of update() calls (limit and/or
+   interval changes in any direction) exactly one ticker still fires, it has the
+   configured interval, so at most w / interval + 1 ticks fall into a wall-clock window
+   of length w - this is what turns "once * ticks" into a bound per unit of time. *)
+Theorem C18_one_refill_source : forall l iv us w,
+  let s := kupdates true (kinit l iv) us in
+  firing s = 1 /\ fires_in w s = w / k_interval s + 1.
+Proof. exact ticker_sources. Qed.
+Print Assumptions C18_one_refill_source.
+
+(* What the code on HEAD also does: each interval change leaves one goroutine behind
+   (Ticker.Stop does not close the channel startTicker ranges over) - a goroutine leak,
+   not a refill source. *)
+Theorem C18_ticker_goroutines : forall b us s,
+  goroutines (kupdates b s us) = goroutines s + interval_changes (k_limit s) (k_interval s) us.
+Proof. exact ticker_goroutines. Qed.
+Print Assumptions C18_ticker_goroutines.
+
+(* The variant of update() without q.stopTicker(): the old ticker keeps refilling. *)
+Theorem C18_one_refill_source_without_stop_refuted :
+  let s := kupdates false (kinit 100 10000000) [(100, 100000000)] in
+  firing s = 2 /\ fires_in 1000000000 s = 112 /\ 1000000000 / k_interval s + 1 = 11.
+Proof. exact no_stop_two_sources. Qed.
+Print Assumptions C18_one_refill_source_without_stop_refuted.
+
 (* A call or push is refused exactly when the total bucket or (after it) the handler's
    bucket has no token; a refused call gets an error reply with code 500 and its
    handler does not run; a refused push is dropped. *)
